@@ -219,12 +219,15 @@ func (w *World) Enabled() []Event {
 	alive := func(i int) bool { return !w.crashed[i] }
 	// local operations
 	for i := 0; i < n; i++ {
-		if !alive(i) || w.leftCalled[i] || w.opsUsed[i] >= sc.MaxOps[i] {
+		if !alive(i) || w.opsUsed[i] >= sc.MaxOps[i] {
 			continue
 		}
 		for _, op := range sc.Ops[i] {
 			ev := op
 			ev.A = i
+			if w.leftCalled[i] && op.Kind != "compact" {
+				continue // after a leave only the periodic compaction still runs
+			}
 			switch op.Kind {
 			case "compact":
 				has := false
